@@ -160,4 +160,7 @@ def PyTime.wf (t : PyTime) : Prop :=
 
 def PyDate.wf (d : PyDate) : Prop := pyDateFieldsOk d.year d.month d.day = true
 
+/-- offsets `timezone()` accepts: strictly inside ±24 h -/
+def stdOffset (o : Option Int) : Prop := ∀ x, o = some x → -1440 < x ∧ x < 1440
+
 end Xs.Dates
